@@ -10,22 +10,21 @@ Notes
   gets from node.getChild(a).getChild(b); the scenario calls n.getChild(a).getChild(b) itself (iqc_privacylist).
 * Lists of children (getAllChildren + loop): the scenario gives the input node a child list of exactly two symbolic nodes - bounded
   in the length of that list only (see the section below).
-* Three scenarios are PARTIAL because the real code alters a documented field (marked FINDING at the clause that is weakened):
-  iqc_picture_get (picture type), iqc_privacy_set (category value), iqc_sync (last).
+* Two scenarios are PARTIAL because the real code alters a documented field (marked FINDING at the clause that is weakened):
+  iqc_picture_get (picture type), iqc_privacy_set (category value).  (iqc_sync was partial for `last` until the parser was repaired.)
+* The assumed-pure getChild contract takes `identifier: Any` (a tag or an index): ListGroupsIq calls node.getChild(0).
 * Not in this file - the real code loses a documented part of the stanza: PushIq / PropsIq / PictureIq (inherited parser: the child
-  node is lost), ResultGetPictureIq (serialiser builds ProtocolTreeNode({"type": ..}, data=..): the tag is a dict, id and type lost),
-  ResultPrivacyIq (serialiser emits an empty <privacy/>).
-* Not in this file - engine: `super(C, C).fromProtocolTreeNode(node)` ends in a traceback (interp.super_attr: 'VClass' object has no
-  attribute 'loc'): ResultPrivacyIq, InfoGroupsIq, LeaveGroupsIq, ListGroupsIq, SubjectGroupsIq, CreateGroupsIq; node.getChild("sync")
-  on the OUTPUT node inside toProtocolTreeNode goes through the assumed-pure getChild contract (an arbitrary node, not the child that
-  was just added; safety:attr-of-None[syncNode.setAttribute] fails): GetSyncIq, ResultSyncIq."""
+  node is lost).
+* Not in this file - engine: node.getChild("sync") on the OUTPUT node inside toProtocolTreeNode goes through the assumed-pure getChild
+  contract (an arbitrary node, not the child that was just added; safety:attr-of-None[syncNode.setAttribute] fails): GetSyncIq,
+  ResultSyncIq."""
 from pyvc.lang import *
 from contracts.C09_entities import *
 
 
 @contract("yowsup/structs/protocoltreenode.py", "ProtocolTreeNode.getChild", assumed=True, pure=True,
-          reason="first child with that tag, or None: a pure function of the node")
-def getChild(self: Obj("ProtocolTreeNode"), identifier: Str) -> Opt(Obj("ProtocolTreeNode")):
+          reason="first child with that tag (str) / the child at that index (int), or None: a pure function of the node")
+def getChild(self: Obj("ProtocolTreeNode"), identifier: Any) -> Opt(Obj("ProtocolTreeNode")):
     pass
 
 
@@ -318,3 +317,71 @@ def iqc_privacy_result(n: Obj("ProtocolTreeNode"), u0: Obj("ProtocolTreeNode"), 
     ensures(child(child(m, 0), 0).data is None and child(child(m, 0), 1).data is None)
     ensures(same_attr(child(child(m, 0), 0), u0, "name") and same_attr(child(child(m, 0), 1), u1, "name"))
     ensures(same_attr(child(child(m, 0), 0), u0, "value") and same_attr(child(child(m, 0), 1), u1, "value"))
+
+
+@scenario
+def iqc_groups_info(n: Obj("ProtocolTreeNode")):
+    """<iq id= type="get" to={{group_jid}} xmlns="w:g2"><query request="interactive"/></iq>"""
+    requires(iq_shape(n, "get") and attr(n, "xmlns") == "w:g2" and attr(n, "to") is not None and pure_child(n, "query") is not None)
+    requires(attr(pure_child(n, "query"), "request") == "interactive")
+    e = InfoGroupsIqProtocolEntity.fromProtocolTreeNode(n)
+    m = e.toProtocolTreeNode()
+    ensures(same_iq_attrs(m, n))
+    ensures(n_children(m) == 1 and child(m, 0).tag == "query" and child(m, 0).data is None and n_children(child(m, 0)) == 0)
+    ensures(same_attr(child(m, 0), pure_child(n, "query"), "request"))
+
+
+@scenario
+def iqc_groups_leave(n: Obj("ProtocolTreeNode"), u0: Obj("ProtocolTreeNode"), u1: Obj("ProtocolTreeNode")):
+    """<iq id= type="set" to="g.us" xmlns="w:g2"><leave action="delete"><group id=/><group id=/></leave></iq>"""
+    requires(iq_shape(n, "set") and attr(n, "xmlns") == "w:g2" and attr(n, "to") is not None and pure_child(n, "leave") is not None)
+    requires(attr(pure_child(n, "leave"), "action") == "delete")
+    requires(u0.tag == "group" and u1.tag == "group" and attr(u0, "id") is not None and attr(u1, "id") is not None)
+    n.getChild("leave").children = [u0, u1]
+    e = LeaveGroupsIqProtocolEntity.fromProtocolTreeNode(n)
+    m = e.toProtocolTreeNode()
+    ensures(same_iq_attrs(m, n))
+    ensures(n_children(m) == 1 and child(m, 0).tag == "leave" and child(m, 0).data is None and n_children(child(m, 0)) == 2)
+    ensures(same_attr(child(m, 0), pure_child(n, "leave"), "action"))
+    ensures(child(child(m, 0), 0).tag == "group" and child(child(m, 0), 1).tag == "group")
+    ensures(child(child(m, 0), 0).data is None and child(child(m, 0), 1).data is None)
+    ensures(same_attr(child(child(m, 0), 0), u0, "id") and same_attr(child(child(m, 0), 1), u1, "id"))
+
+
+@scenario
+def iqc_groups_subject(n: Obj("ProtocolTreeNode")):
+    """<iq type="set" id= xmlns="w:g2" to={{group_jid}}><subject>{{NEW_VAL}}</subject></iq>"""
+    requires(iq_shape(n, "set") and attr(n, "xmlns") == "w:g2" and attr(n, "to") is not None and pure_child(n, "subject") is not None)
+    e = SubjectGroupsIqProtocolEntity.fromProtocolTreeNode(n)
+    m = e.toProtocolTreeNode()
+    ensures(same_iq_attrs(m, n))
+    ensures(n_children(m) == 1 and child(m, 0).tag == "subject" and n_children(child(m, 0)) == 0)
+    ensures(child(m, 0).data == pure_child(n, "subject").data)
+
+
+@scenario
+def iqc_groups_create(n: Obj("ProtocolTreeNode"), u0: Obj("ProtocolTreeNode"), u1: Obj("ProtocolTreeNode")):
+    """<iq type="set" id= xmlns="w:g2" to="g.us"><create subject=><participant jid=/><participant jid=/></create></iq>"""
+    requires(iq_shape(n, "set") and attr(n, "xmlns") == "w:g2" and attr(n, "to") is not None and pure_child(n, "create") is not None)
+    requires(attr(pure_child(n, "create"), "subject") is not None)
+    requires(u0.tag == "participant" and u1.tag == "participant" and attr(u0, "jid") is not None and attr(u1, "jid") is not None)
+    n.getChild("create").children = [u0, u1]
+    e = CreateGroupsIqProtocolEntity.fromProtocolTreeNode(n)
+    m = e.toProtocolTreeNode()
+    ensures(same_iq_attrs(m, n))
+    ensures(n_children(m) == 1 and child(m, 0).tag == "create" and child(m, 0).data is None and n_children(child(m, 0)) == 2)
+    ensures(same_attr(child(m, 0), pure_child(n, "create"), "subject"))
+    ensures(child(child(m, 0), 0).tag == "participant" and child(child(m, 0), 1).tag == "participant")
+    ensures(child(child(m, 0), 0).data is None and child(child(m, 0), 1).data is None)
+    ensures(same_attr(child(child(m, 0), 0), u0, "jid") and same_attr(child(child(m, 0), 1), u1, "jid"))
+
+
+@scenario
+def iqc_groups_list(n: Obj("ProtocolTreeNode")):
+    """<iq id= type="get" to="g.us" xmlns="w:g2"><participating/></iq>  or  <owning/>"""
+    requires(iq_shape(n, "get") and attr(n, "xmlns") == "w:g2" and attr(n, "to") is not None and pure_child(n, 0) is not None)
+    requires(pure_child(n, 0).tag == "participating" or pure_child(n, 0).tag == "owning")
+    e = ListGroupsIqProtocolEntity.fromProtocolTreeNode(n)
+    m = e.toProtocolTreeNode()
+    ensures(same_iq_attrs(m, n))
+    ensures(n_children(m) == 1 and child(m, 0).tag == pure_child(n, 0).tag and child(m, 0).data is None and n_children(child(m, 0)) == 0)
